@@ -1,6 +1,7 @@
 package props
 
 import (
+	"go/types"
 	"go/token"
 	"strings"
 
@@ -110,11 +111,18 @@ func checkInvokeTimer(c *report.Ctx) {
 	// the timeout error is what Invoke returns from that case
 	okE := false
 	for _, e := range an.Exits(inv) {
-		if ph, k := e.Vals[0].(*ssa.Phi); k {
-			for _, ed := range ph.Edges {
-				if ex, k2 := ed.(*ssa.Extract); k2 {
-					if _, isSel := ex.Tuple.(*ssa.Select); isSel {
-						okE = true
+		for _, leaf := range an.PhiLeaves(e.Vals[0]) {
+			if ex, k2 := leaf.(*ssa.Extract); k2 {
+				if sel, isSel := ex.Tuple.(*ssa.Select); isSel && ex.Index >= 2 {
+					// the received value of the timeoutChan state
+					ri := 0
+					for _, st := range sel.States {
+						if st.Dir == types.RecvOnly {
+							if ri == ex.Index-2 && chanName(st.Chan) == "timeoutChan" {
+								okE = true
+							}
+							ri++
+						}
 					}
 				}
 			}
@@ -161,7 +169,11 @@ func checkTeardownBeforeAnswer(c *report.Ctx) {
 				}
 			}
 		}
-		c.Check("R-ORDER", an.FuncName(rg)+"/done-after-sandbox-reset", "reset completion is signalled only by the reset goroutine itself and only after the sandbox reset (teardown of every process) has returned", ok && n == 2 && len(others) == 0, fpos(rg), n, "ResetDoneChan sends: %d, all after the sandbox reset: %v; other senders: %v", n, ok, others)
+		min, max := an.Count(rg, func(in ssa.Instruction) bool {
+			s, isSend := in.(*ssa.Send)
+			return isSend && chanName(s.Chan) == "ResetDoneChan"
+		})
+		c.Check("R-ORDER", an.FuncName(rg)+"/done-after-sandbox-reset", "reset completion is signalled only by the reset goroutine itself, exactly once on every path, and only after the sandbox reset (teardown of every process) has returned", ok && n >= 1 && min == 1 && max == 1 && len(others) == 0, fpos(rg), n, "ResetDoneChan sends: %d (per path min %d, max %d), all after the sandbox reset: %v; other senders: %v", n, min, max, ok, others)
 	}
 	if r := fn(c, rapidcP, "(*Server).Reset"); r != nil {
 		recv := false
